@@ -39,8 +39,21 @@ def _iterate_calc_tree_and_ground(
                         parameters_map[lifted_function_params[index]]
                     ] = lifted_function.signature[parameter_name]
 
+            grounded_arguments = [
+                parameter_name
+                if parameter_name in domain.constants
+                else parameters_map[parameter_name]
+                for parameter_name in lifted_function_params
+            ]
+            repeating_arguments = {
+                argument: grounded_arguments.count(argument)
+                for argument in grounded_arguments
+                if grounded_arguments.count(argument) > 1
+            }
             grounded_function = PDDLFunction(
-                name=lifted_function.name, signature=grounded_signature
+                name=lifted_function.name,
+                signature=grounded_signature,
+                repeating_variables=repeating_arguments,
             )
             return AnyNode(id=str(grounded_function), value=grounded_function)
 
